@@ -115,6 +115,9 @@ func runMeasure(e *simcore.Env, tp *simcore.Tape) {
 		s.Install(repo)
 		flush := []string{"1s", "5s", "20s"}[tp.Choose(3)]
 		flags := []string{"--measure-flush-timeout=" + flush, fmt.Sprintf("--measure-max-merge-parts=%d", tp.Range(2, 8))}
+		qpFlags, qpTag := simnode.QueryPath(tp.Choose, "measure")
+		flags = append(flags, qpFlags...)
+		_ = qpTag
 		if tp.Bool(1, 2) {
 			flags = append(flags, fmt.Sprintf("--measure-min-merge-multiplier=%d", tp.Range(1, 3)))
 		}
@@ -231,6 +234,9 @@ func runStream(e *simcore.Env, tp *simcore.Tape) {
 		s.Install(repo)
 		flush := []string{"1s", "5s", "20s"}[tp.Choose(3)]
 		flags := []string{"--stream-flush-timeout=" + flush, fmt.Sprintf("--stream-max-merge-parts=%d", tp.Range(2, 8))}
+		qpFlags, qpTag := simnode.QueryPath(tp.Choose, "stream")
+		flags = append(flags, qpFlags...)
+		_ = qpTag
 		n, err := simnode.Boot(repo, e.Dir, simnode.Engines{Stream: true}, flags)
 		if err != nil {
 			e.Fail("boot", "boot-failed", "boot: %v", err)
